@@ -203,7 +203,7 @@ def run(tier, seed):
                 'tainted programs are checked for the not-advertised clause; distinct_nontrivial = distinct '
                 '(outer, callee, reported shape) triples where discovery changed the signature',
         'bound': 'quick: S1 outer <=1 named over {a} (>=1 star), callee <=2 named over {x,y} or {a,x} containing a, '
-                 '<=1 constant positional, <=1 written keyword; S2 12 contexts x 7 routes on 6 pairs; S3 taints x '
+                 '<=1 constant positional, <=1 written keyword; S2 contexts x routes on 6 pairs; S3 taints x '
                  'before/after x 4 contexts on 3 pairs. thorough: outer <=2 named, <=2 constants, <=2 keywords in '
                  'every order, 14 pairs',
     }
